@@ -44,7 +44,14 @@ impl<'a> ResourceRecordManager<'a> {
         let exp_info = ExpirationInfo::new(ttl);
         match self.resources.get_mut(&key) {
             Some(resources) => {
-                resources.insert(resource, ResourceRecordType::Cached(exp_info));
+                // a record registered locally stays authoritative when the same record is also
+                // seen on the network (e.g. our own announcement), it must not start to expire
+                if !matches!(
+                    resources.get(&resource),
+                    Some(ResourceRecordType::Authoritative)
+                ) {
+                    resources.insert(resource, ResourceRecordType::Cached(exp_info));
+                }
             }
             None => {
                 let mut resources = HashMap::new();
